@@ -50,6 +50,87 @@ fn nd_timings() -> Vec<Tm> {
 
 const T2: Tm = Tm { cycle: 2.0, delay: 0.25, rep: Rp::None, reverse: false };
 
+/// One animator configuration: a plain timeline (one part) or a MergedTimeline of two parts, the first
+/// animating `x`, the second `n` (the Animator stores any boxed timeline, merged ones included).
+#[derive(Clone, Debug, PartialEq)]
+struct Cf {
+    parts: Vec<Tm>,
+}
+
+impl Cf {
+    fn plain(t: Tm) -> Cf {
+        Cf { parts: vec![t] }
+    }
+    /// smallest component delay
+    fn delay(&self) -> f32 {
+        self.parts.iter().map(|t| t.delay).fold(f32::INFINITY, f32::min)
+    }
+    /// largest component total; None if any component repeats infinitely
+    fn total(&self) -> Option<f32> {
+        let mut m = f32::NEG_INFINITY;
+        for t in &self.parts {
+            m = m.max(t.total()?);
+        }
+        Some(m)
+    }
+    fn json(&self) -> Value {
+        if self.parts.len() == 1 { self.parts[0].json() } else { json!({"merged": self.parts.iter().map(|t| t.json()).collect::<Vec<_>>()}) }
+    }
+    fn build(&self) -> Tl {
+        if self.parts.len() == 1 {
+            Tl::Plain(t1(&self.parts[0]))
+        } else {
+            let tm = |t: &Tm| C::timeline().duration_seconds(t.cycle).delay_seconds(t.delay).reverse(t.reverse).repeat(match t.rep {
+                Rp::None => Repeat::None,
+                Rp::Times(n) => Repeat::Times(n),
+                Rp::Infinite => Repeat::Infinite,
+            });
+            let a = tm(&self.parts[0]).keyframe(C::keyframe(0.0).x(10.0)).keyframe(C::keyframe(1.0).x(20.0)).build();
+            let b = tm(&self.parts[1]).keyframe(C::keyframe(0.0).n(-5)).keyframe(C::keyframe(1.0).n(5)).build();
+            Tl::Merged(MergedTimeline::of([a, b]))
+        }
+    }
+}
+
+#[derive(Clone)]
+enum Tl {
+    Plain(CTimeline),
+    Merged(MergedTimeline<CTimeline>),
+}
+
+impl Tl {
+    fn animator(&self) -> Animator<C> {
+        match self {
+            Tl::Plain(t) => Animator::with_timeline(t.clone()),
+            Tl::Merged(t) => Animator::with_timeline(t.clone()),
+        }
+    }
+    fn set_on(&self, a: &mut Animator<C>) {
+        match self {
+            Tl::Plain(t) => a.set_timeline(t.clone()),
+            Tl::Merged(t) => a.set_timeline(t.clone()),
+        }
+    }
+    fn update(&self, c: &mut C, t: f32) {
+        match self {
+            Tl::Plain(x) => x.update(c, t),
+            Tl::Merged(x) => x.update(c, t),
+        }
+    }
+}
+
+/// Merged configurations: components sharing one cycle length but staggered by delay and/or with different
+/// repeat counts (so that no single component carries the smallest delay, the largest repeat and the end).
+fn merged_cfs() -> Vec<Cf> {
+    let t = |cycle, delay, rep, reverse| Tm { cycle, delay, rep, reverse };
+    vec![
+        Cf { parts: vec![t(1.0, 0.0, Rp::None, false), t(1.0, 1.0, Rp::None, false)] },
+        Cf { parts: vec![t(0.5, 0.0, Rp::Times(2), false), t(0.5, 0.5, Rp::None, true)] },
+        Cf { parts: vec![t(0.25, 0.0, Rp::Times(1), false), t(2.0, 0.5, Rp::None, false)] },
+        Cf { parts: vec![t(1.0, 0.5, Rp::None, false), t(1.0, 0.0, Rp::Infinite, true)] },
+    ]
+}
+
 fn t1(t: &Tm) -> CTimeline {
     timeline_for(t, 10.0, 20.0, -5, 5)
 }
@@ -111,32 +192,32 @@ fn observe(world: &World, e: Entity) -> Obs {
     Obs { state: a.state(), pos: a.timeline_position, enabled: a.enabled, comp: world.get::<C>(e).cloned() }
 }
 
-fn schedule_json(sched: &[f64], ent: &Ent, tms: &[Tm]) -> Value {
+fn schedule_json(sched: &[f64], ent: &Ent, tms: &[Cf]) -> Value {
     json!({"timing": tms[ent.cfg].json(), "frame_deltas_s": sched, "control_before_each_frame": ent.ctl.iter().map(|c| format!("{c:?}")).collect::<Vec<_>>(),
            "initial_component": {"x": 3.0, "n": 33, "y": 7.0}, "T1_keyframes": "0%: x=10,n=-5; 100%: x=20,n=5", "T2": {"timing": T2.json(), "keyframes": "0%: x=100,n=50; 100%: x=200,n=60"}})
 }
 
 /// Runs one App for a delta schedule hosting `ents`; checks R1-R9 per entity-frame.
-fn run_schedule(sched: &[f64], ctl_histories: &[Vec<Ctl>], tms: &[Tm], rank0: u64, acc: &mut Acc) {
+fn run_schedule(sched: &[f64], ctl_histories: &[Vec<Ctl>], tms: &[Cf], rank0: u64, acc: &mut Acc) {
     let mut d = Driver::new(|app| {
         app.add_plugins(AnimationPlugin::<C>::new());
     });
     acc.apps += 1;
-    let tls1: Vec<CTimeline> = tms.iter().map(t1).collect();
-    let tl2 = t2();
+    let tls1: Vec<Tl> = tms.iter().map(|c| c.build()).collect();
+    let tl2 = Tl::Plain(t2());
     let mut ents: Vec<Ent> = vec![];
     for (ci, _) in tms.iter().enumerate() {
         for h in ctl_histories {
             // API variety: histories that start with Disable are spawned with `as_disabled()`, those
             // that start with Reset through `Animator::new()` + `set_timeline`
             let animator = match h.first() {
-                Some(Ctl::Disable) => Animator::<C>::with_timeline(tls1[ci].clone()).as_disabled(),
+                Some(Ctl::Disable) => tls1[ci].animator().as_disabled(),
                 Some(Ctl::Reset) => {
                     let mut a = Animator::<C>::new();
-                    a.set_timeline(tls1[ci].clone());
+                    tls1[ci].set_on(&mut a);
                     a
                 }
-                _ => Animator::<C>::with_timeline(tls1[ci].clone()),
+                _ => tls1[ci].animator(),
             };
             // histories that start with Detach are spawned without the target component at all
             let e = if h.first() == Some(&Ctl::Detach) { d.app.world.spawn((animator,)).id() } else { d.app.world.spawn((C::initial(), animator)).id() };
@@ -169,7 +250,7 @@ fn run_schedule(sched: &[f64], ctl_histories: &[Vec<Ctl>], tms: &[Tm], rank0: u6
                         ent.entered_ended_in_run = false;
                     }
                     Ctl::SetT2 => {
-                        a.set_timeline(tl2.clone());
+                        tl2.set_on(&mut a);
                         ent.on_t2 = true;
                         ent.ended_events_in_run = 0;
                         ent.entered_ended_in_run = false;
@@ -191,8 +272,8 @@ fn run_schedule(sched: &[f64], ctl_histories: &[Vec<Ctl>], tms: &[Tm], rank0: u6
             let o = &pre[i];
             let n = observe(&d.app.world, ent.e);
             let evs = &ev_by_ent[i];
-            let tm = if ent.on_t2 { T2 } else { tms[ent.cfg] };
-            let tl: &CTimeline = if ent.on_t2 { &tl2 } else { &tls1[ent.cfg] };
+            let tm = if ent.on_t2 { Cf::plain(T2) } else { tms[ent.cfg].clone() };
+            let tl: &Tl = if ent.on_t2 { &tl2 } else { &tls1[ent.cfg] };
             let rank = rank0 | (f as u64) << 24 | i as u64;
             let p = o.pos.as_secs_f32();
             if acc.outcomes.len() < 20_000 {
@@ -234,8 +315,8 @@ fn run_schedule(sched: &[f64], ctl_histories: &[Vec<Ctl>], tms: &[Tm], rank0: u6
                 viol!("R2:state-moved-backwards", "{:?} -> {:?}", o.state, n.state);
             }
             // R3 waiting only before the delay
-            if n.state == AnimationState::Waiting && !(p < tm.delay) {
-                viol!("R3:waiting-at-or-after-delay", "Waiting although position {p} >= delay {}", tm.delay);
+            if n.state == AnimationState::Waiting && !(p < tm.delay()) {
+                viol!("R3:waiting-at-or-after-delay", "Waiting although position {p} >= delay {}", tm.delay());
             }
             // R4 / R5 ended exactly when over
             match tm.total() {
@@ -314,7 +395,8 @@ fn rank_of(s: AnimationState) -> u8 {
 pub fn run(run: Run) -> ! {
     let thorough = run.is_thorough();
     let depth = if thorough { 6 } else { 5 };
-    let tms = timings();
+    let mut tms: Vec<Cf> = timings().into_iter().map(Cf::plain).collect();
+    tms.extend(merged_cfs());
     // all control histories of length `depth`
     let mut ctl_h: Vec<Vec<Ctl>> = vec![vec![]];
     for _ in 0..depth {
@@ -400,7 +482,7 @@ pub fn run(run: Run) -> ! {
     merge(&mut acc, dev);
     // non-dyadic pass: totals that are not exactly representable, reached exactly by decimal frame deltas
     // (100 ms and 50 ms are whole numbers of nanoseconds); controls {nothing, reset}
-    let nd_tms = nd_timings();
+    let nd_tms: Vec<Cf> = nd_timings().into_iter().map(Cf::plain).collect();
     let nd_deltas = [0.0f64, 0.05, 0.1, 8.0];
     let nd_depth = if thorough { 7 } else { 6 };
     let mut nd_ctl: Vec<Vec<Ctl>> = vec![vec![]];
@@ -451,7 +533,7 @@ pub fn run(run: Run) -> ! {
     cov.insert("traces_validated_against_impl".into(), json!(acc.apps));
     cov.insert("evaluations".into(), json!(acc.rule_checks));
     cov.insert("distinct_nontrivial".into(), json!(acc.nontrivial));
-    cov.insert("rule".into(), json!(format!("real headless bevy App (AnimationPlugin<C>, hand-driven Time resource, single-threaded executor): ALL {} frame-delta schedules of length {} over {{0, 2^-9, 1/4, 8}} s x ALL {} per-entity control histories over {{nothing, disable, enable, reset, set_timeline(T2)}} (one control before each frame) x 12 timings (delay 0|1/2 x None|Times 1|Infinite x forward|reverse, cycle 1 s), one App per schedule hosting every (timing, control history) as its own entity; plus a deviation-bounded pass: default delta 1/4, all schedules of {} frames with <= {} deviations ({} schedules) x control histories with <= 1 control; plus a non-dyadic pass ({} schedules over deltas 0, 50 ms, 100 ms, 8 s x 4 timelines whose totals 0.3/0.4/0.7/0.3 s are not exactly representable x reset histories); plus a presence pass ({} Apps: all schedules x ALL histories over {{nothing, detach the target component, attach a fresh one}}; histories starting with detach spawn the animator without the component) - the animator's clock, state and events must not depend on the component being there, R6/R7 apply while it is. Rules per entity-frame: R1 position += delta while Waiting/Playing and frozen when Ended; R2 state never moves backwards; R3 Waiting only while position < delay; R4 Ended iff position >= total (checked at the frame-start position); R5 never Ended when infinite; R6 Ended => component == terminal values; R7 Playing => component == timeline at the frame-start position; R8 disabled => nothing changes, no event; R9 exactly one event per state change carrying the final state, one Ended per run. non-trivial = entity-frames in which the state changed", nsched, depth, ctl_h.len(), horizon, k, dev_apps, nd_apps, pr_apps)));
+    cov.insert("rule".into(), json!(format!("real headless bevy App (AnimationPlugin<C>, hand-driven Time resource, single-threaded executor): ALL {} frame-delta schedules of length {} over {{0, 2^-9, 1/4, 8}} s x ALL {} per-entity control histories over {{nothing, disable, enable, reset, set_timeline(T2)}} (one control before each frame) x 16 timeline configurations (12 plain: delay 0|1/2 x None|Times 1|Infinite x forward|reverse, cycle 1 s; 4 MergedTimelines of two components staggered by delay and/or with different repeat counts - delay = smallest, total = largest component total), one App per schedule hosting every (timing, control history) as its own entity; plus a deviation-bounded pass: default delta 1/4, all schedules of {} frames with <= {} deviations ({} schedules) x control histories with <= 1 control; plus a non-dyadic pass ({} schedules over deltas 0, 50 ms, 100 ms, 8 s x 4 timelines whose totals 0.3/0.4/0.7/0.3 s are not exactly representable x reset histories); plus a presence pass ({} Apps: all schedules x ALL histories over {{nothing, detach the target component, attach a fresh one}}; histories starting with detach spawn the animator without the component) - the animator's clock, state and events must not depend on the component being there, R6/R7 apply while it is. Rules per entity-frame: R1 position += delta while Waiting/Playing and frozen when Ended; R2 state never moves backwards; R3 Waiting only while position < delay; R4 Ended iff position >= total (checked at the frame-start position); R5 never Ended when infinite; R6 Ended => component == terminal values; R7 Playing => component == timeline at the frame-start position; R8 disabled => nothing changes, no event; R9 exactly one event per state change carrying the final state, one Ended per run. non-trivial = entity-frames in which the state changed", nsched, depth, ctl_h.len(), horizon, k, dev_apps, nd_apps, pr_apps)));
     cov.insert("exhaustive".into(), json!(true));
     cov.insert("apps".into(), json!(acc.apps));
     cov.insert("events_observed".into(), json!(acc.events));
@@ -462,8 +544,8 @@ pub fn run(run: Run) -> ! {
 }
 
 pub fn replay(case: &Value) -> bool {
-    let mut tms = timings();
-    tms.extend(nd_timings());
+    let mut tms: Vec<Cf> = timings().into_iter().chain(nd_timings()).map(Cf::plain).collect();
+    tms.extend(merged_cfs());
     let tmj = &case["timing"];
     let ci = tms.iter().position(|t| t.json() == *tmj).unwrap_or(0);
     let sched: Vec<f64> = case["frame_deltas_s"].as_array().map(|a| a.iter().map(|x| x.as_f64().unwrap()).collect()).unwrap_or_default();
